@@ -334,6 +334,14 @@ impl Ans {
     }
 }
 
+/// Last panic message seen by the hook installed in `run` (a panic is an observable here).
+static LAST_PANIC: std::sync::Mutex<String> = std::sync::Mutex::new(String::new());
+
+fn take_panic() -> String {
+    let mut g = LAST_PANIC.lock().unwrap_or_else(|e| e.into_inner());
+    std::mem::take(&mut *g)
+}
+
 pub fn fnv(s: &str) -> u64 {
     let mut h: u64 = 0xcbf2_9ce4_8422_2325;
     for b in s.as_bytes() {
@@ -833,7 +841,7 @@ fn judge(
             panic: true,
             hash: 0,
             size: 0,
-            detail: None,
+            detail: Some((take_panic(), String::new())),
         },
         Ok((a1, a2, af)) => {
             let (d1, df) = if structural {
@@ -959,6 +967,7 @@ fn run_db_case(n: u64, rng: &mut Rng, steps: usize, corpus: &[Slot], out: &mut O
                 if r.is_err() {
                     out.line("impl panic");
                     out.line(format!("#o set {id} 0 fresh=1 repeat=1 panic=1 h=0"));
+                    out.line(format!("#x panic {}", hex(take_panic().as_bytes())));
                     aborted = true;
                     break;
                 }
@@ -992,6 +1001,7 @@ fn run_db_case(n: u64, rng: &mut Rng, steps: usize, corpus: &[Slot], out: &mut O
                 if r.is_err() {
                     out.line("impl panic");
                     out.line(format!("#o rm {id} 0 fresh=1 repeat=1 panic=1 h=0"));
+                    out.line(format!("#x panic {}", hex(take_panic().as_bytes())));
                     aborted = true;
                     break;
                 }
@@ -1052,6 +1062,7 @@ fn run_db_case(n: u64, rng: &mut Rng, steps: usize, corpus: &[Slot], out: &mut O
                             Err(_) => {
                                 out.line("impl panic");
                                 out.line(format!("#o {} {f} {arg} fresh=1 repeat=1 panic=1 h=0", kind.name()));
+                                out.line(format!("#x panic {}", hex(take_panic().as_bytes())));
                                 aborted = true;
                                 break;
                             }
@@ -1078,8 +1089,12 @@ fn run_db_case(n: u64, rng: &mut Rng, steps: usize, corpus: &[Slot], out: &mut O
                         v.hash
                     ));
                     if let Some((a, b)) = v.detail {
-                        out.line(format!("#x inc {}", hex(a.as_bytes())));
-                        out.line(format!("#x fresh {}", hex(b.as_bytes())));
+                        if v.panic {
+                            out.line(format!("#x panic {}", hex(a.as_bytes())));
+                        } else {
+                            out.line(format!("#x inc {}", hex(a.as_bytes())));
+                            out.line(format!("#x fresh {}", hex(b.as_bytes())));
+                        }
                     }
                     if v.size > 0 {
                         out.count("q_nonempty_answer");
@@ -1234,6 +1249,7 @@ fn run_proj_case(
                 if r.is_err() {
                     out.line("impl panic");
                     out.line(format!("#p set {k} 0 same_order=1 key_order=1 repeat=1 panic=1 order_differs=0"));
+                    out.line(format!("#x panic {}", hex(take_panic().as_bytes())));
                     aborted = true;
                     break;
                 }
@@ -1249,6 +1265,7 @@ fn run_proj_case(
                 if r.is_err() {
                     out.line("impl panic");
                     out.line(format!("#p rm {k} 0 same_order=1 key_order=1 repeat=1 panic=1 order_differs=0"));
+                    out.line(format!("#x panic {}", hex(take_panic().as_bytes())));
                     aborted = true;
                     break;
                 }
@@ -1301,6 +1318,7 @@ fn run_proj_case(
                             "#p {} {k} {arg} same_order=1 key_order=1 repeat=1 panic=1 order_differs=0",
                             kind.name()
                         ));
+                        out.line(format!("#x panic {}", hex(take_panic().as_bytes())));
                         aborted = true;
                         break;
                     }
@@ -1322,14 +1340,17 @@ fn run_proj_case(
                             u8::from(order_differs)
                         ));
                         out.count("proj_queries");
-                        if !va.fresh {
+                        if va.panic || vb.panic {
+                            out.line(format!("#x panic {}", hex(take_panic().as_bytes())));
+                        }
+                        if !va.fresh && !va.panic {
                             out.count("proj_differs_from_fresh_same_order");
                             if let Some((a, b)) = va.detail {
                                 out.line(format!("#x inc {}", hex(a.as_bytes())));
                                 out.line(format!("#x fresh_same_order {}", hex(b.as_bytes())));
                             }
                         }
-                        if !vb.fresh {
+                        if !vb.fresh && !vb.panic {
                             out.count("proj_differs_from_fresh_key_order");
                             if let Some((a, b)) = vb.detail {
                                 out.line(format!("#x inc {}", hex(a.as_bytes())));
@@ -1389,7 +1410,8 @@ pub fn run(args: &Args) -> i32 {
     out.add("corpus_files", corpus.len() as u64);
     // panics are observables here; keep stderr quiet but remember the last message
     std::panic::set_hook(Box::new(|info| {
-        eprintln!("c13: caught panic: {info}");
+        let mut g = LAST_PANIC.lock().unwrap_or_else(|e| e.into_inner());
+        *g = info.to_string();
     }));
     for n in args.case_numbers() {
         let mut rng = Rng::for_case(args.seed, n);
